@@ -19,6 +19,17 @@ structure SortedPerm {α : Type} (less : α → α → Bool) (xs ys : List α) :
 /-- `sort` is a correct sorting function for `LocationLess` -/
 def CorrectSort (sort : List Loc → List Loc) : Prop := ∀ xs, SortedPerm Loc.less xs (sort xs)
 
+/-- `sort` returns a rearrangement of its argument (all that the clauses "covered residues",
+"chains", "unchanged", "never panics" need) -/
+def PermSort (sort : List Loc → List Loc) : Prop := ∀ xs, (sort xs).Perm xs
+
+/-- `sort` leaves alone every list in which no later element is less than an earlier one.  Not
+part of what `sort.Sort` promises; true of insertion sort and of Go's pdqsort (on such a list
+`choosePivot` swaps nothing and `partialInsertionSort` finds nothing to move), false of e.g.
+"insertion sort of the reversed list". -/
+def KeepsSorted (sort : List Loc → List Loc) : Prop :=
+  ∀ p : List Loc, (p.Pairwise fun a b => Loc.less b a = false) → sort p = p
+
 /-- no later element is `less` than an earlier one (Boolean) -/
 def sortedB {α : Type} (less : α → α → Bool) : List α → Bool
   | [] => true
